@@ -87,9 +87,8 @@ func Vars(tx types.Transaction, skip map[string]bool) map[string][]string {
 	if !ok {
 		return nil
 	}
-	saved := vrt.MapOrderOff
-	vrt.MapOrderOff = true
-	defer func() { vrt.MapOrderOff = saved }()
+	saved := vrt.SetMapOrderOff(true)
+	defer vrt.SetMapOrderOff(saved)
 	out := map[string][]string{}
 	tv := ts.Variables()
 	rv := reflect.ValueOf(tv)
